@@ -6,8 +6,9 @@ user_resource.cc (resource API):
 R-KEYNORM   every access to the string-keyed table(s) of class VFS (find/contains/count/at/[]/
             emplace/insert/try_emplace/insert_or_assign/erase/extract) is enumerated and the
             provenance of its key expression is computed (locals through their definitions,
-            parameters of private/internal functions through every call site, substr/copy
-            transparent).  A key must be the string of an object of the path class (normalised by
+            parameters of private/internal functions through every call site, results of internal
+            helper functions that only read their string arguments through their return
+            statements, substr/copy transparent).  A key must be the string of an object of the path class (normalised by
             construction, see below) or the provider prefix, and its provenance class must also
             be used at an insertion; a raw `const char*`/string parameter of an entry point
             reaching a table access is a violation.  The path class invariant is checked on its
@@ -22,7 +23,8 @@ R-ADDFIRST  every insertion into the table is non-overwriting and dominated, on 
 R-DELRESULT the unmount path returns success only on paths that erased the entry it found and a
             failure code (== -1 as documented) on every path where the lookup found nothing;
             mj_unmountVFS / mj_deleteFileVFS return values derived from that result only.
-R-READBACK  the buffer provider's read callback returns data()/size() of one member of the
+R-READBACK  the buffer provider's read callback (a lambda, or a named function / static member
+            function of the file, stored in `read`) returns data()/size() of one member of the
             provider object reached from the resource; that member is written only in the
             provider's constructors (which copy exactly the n source bytes); VFS::Read and
             mju_readResource pass buffer pointer and result through unchanged.
@@ -313,6 +315,11 @@ class Prov:
         t = cxx2.strip_cvref(t or "")
         return t == KEYCLS or t.endswith("::" + KEYCLS)
 
+    def is_strlike(self, t):
+        """a type whose objects carry a key text and can be edited in place (strings, views are not editable, the path class)"""
+        t = t or ""
+        return "std::string" in t.replace("std::string_view", "") or "basic_string<" in t or self.is_keycls(t)
+
     def chain(self, obj):
         """Derivation chain of an object of the path class."""
         obj = cxx2.skip(obj)
@@ -345,7 +352,11 @@ class Prov:
                     return {("unknown", etext(e))}
                 if r[2] in ("substr", "c_str", "data"):
                     return self.prov(r[0], fn, seen)
-            return {("unknown", etext(e))}
+            via = self.through_helper(e, seen)
+            return via if via is not None else {("unknown", etext(e))}
+        if k == "CallExpr":
+            via = self.through_helper(e, seen)
+            return via if via is not None else {("unknown", etext(e))}
         if k == "MemberExpr":
             c = cir.kids(e)
             base = cxx2.skip(c[0]) if c else None
@@ -419,6 +430,34 @@ class Prov:
         if k in ("CXXConstructExpr", "CXXTemporaryObjectExpr"):
             return {("unknown", etext(e))}
         return {("unknown", etext(e))}
+
+    def through_helper(self, call, seen):
+        """Provenance of the result of a call of an internal function of this file: the union over what its return
+        statements return (its parameters resolve through every call site, as for any internal function).  Only for
+        helpers that cannot edit a string they were given (class-type parameters are const): a function that takes a
+        string by value or by non-const reference may transform it in place, which provenance does not see."""
+        g = self.W.callee(call)
+        if g is None or not g.internal or cir.body(g.node) is None:
+            return None
+        for p_ in g.params:
+            t = p_.get("t") or ""
+            if self.is_strlike(t) and not t.startswith("const "):
+                return None
+        if ("fn", id(g)) in seen:
+            return set()
+        rets = [e for _, e in returns_of(g.node)]
+        if not rets or any(e is None for e in rets):
+            return None
+        for e in rets:          # nor may it return a string object it could have edited after initialising it
+            for y in cxx2.walk(e):
+                r = (y.get("ref") or {}) if y.get("k") == "DeclRefExpr" else {}
+                t = r.get("t") or ""
+                if r.get("k") in ("VarDecl", "ParmVarDecl") and not t.startswith("const ") and self.is_strlike(t):
+                    return None
+        out = set()
+        for e in rets:
+            out |= self.prov(e, g, seen | {("fn", id(g))})
+        return out
 
     def keycls_object_prov(self, obj, fn):
         """A path-class object is normalised by the class invariant whatever its origin."""
@@ -701,17 +740,25 @@ class AddRule(paths.Rule):
             init = [c for c in cir.kids(node) if c is not None]
             e = cxx2.skip(init[-1]) if init else None
             ta = table_access(self.W, e) if e is not None and e.get("k") == "CXXMemberCallExpr" else None
+            defs = frozenset(d for d in defs if d[0] != node.get("id"))
             if ta and ta[1] == "find":
-                defs = frozenset(d for d in defs if d[0] != node.get("id")) | \
-                    {(node.get("id"), ta[0], keytext(self.fn.node, ta[2]))}
+                defs = defs | {(node.get("id"), ta[0], keytext(self.fn.node, ta[2]))}
+            elif e is not None and node.get("id") not in assigned_vars(self.fn.node):
+                # `const bool known = table.contains(k);` -- the local stands for the test until the table changes
+                core, neg = cxx2.cond_core(e)
+                pt = presence_test(self.W, core, {d[0]: (d[1], d[2]) for d in defs if len(d) == 3}, self.fn.node)
+                if pt is not None:
+                    defs = defs | {(node.get("id"), pt[0], pt[1], pt[2] != neg)}
             nm = node.get("n")
             facts = frozenset(f for f in facts if nm not in cxx2.words(f[1]))
+            defs = frozenset(d for d in defs if len(d) == 3 or d[0] == node.get("id") or nm not in cxx2.words(d[2]))
             return (facts, defs, mut)
         c = cir.kids(node)
         tgt = cir.strip(c[0]) if c else None
         if tgt is not None and tgt.get("k") == "DeclRefExpr":
             nm = (tgt.get("ref") or {}).get("n")
             facts = frozenset(f for f in facts if nm not in cxx2.words(f[1]))
+            defs = frozenset(d for d in defs if len(d) == 3 or nm not in cxx2.words(d[2]))
         return (facts, defs, mut)
 
     def branch(self, st, cond, taken, ctx):
@@ -719,7 +766,11 @@ class AddRule(paths.Rule):
         s, neg = cxx2.cond_core(cond)
         if neg:
             taken = not taken
-        pt = presence_test(self.W, s, {d[0]: (d[1], d[2]) for d in defs}, self.fn.node)
+        pt = presence_test(self.W, s, {d[0]: (d[1], d[2]) for d in defs if len(d) == 3}, self.fn.node)
+        if pt is None and s is not None and s.get("k") == "DeclRefExpr":
+            for d in defs:
+                if len(d) == 4 and d[0] == (s.get("ref") or {}).get("id"):
+                    pt = d[1:]
         if pt is None:
             return st
         t, key, pos = pt
@@ -745,10 +796,10 @@ class AddRule(paths.Rule):
                     ctx.report(node, f"`{W.tname(t)}` is modified between the containment test and the insertion of "
                                      f"`{kt}`", key=construct)
                 facts = frozenset(f for f in facts if f[0] != t)
-                return (facts, defs, True)
+                return (facts, self._stale(defs, t), True)
             if op in MUTATING_OPS:
                 facts = frozenset(f for f in facts if f[0] != t)
-                return (facts, defs, True)
+                return (facts, self._stale(defs, t), True)
             return st
         # writes through the found entry: it->second.reset(...), it->second = ..., swap
         r = cxx2.receiver(node) if node.get("k") == "CXXMemberCallExpr" else None
@@ -759,8 +810,13 @@ class AddRule(paths.Rule):
             return (facts, defs, True)
         return st
 
+    @staticmethod
+    def _stale(defs, t):
+        """a change of table t ends the validity of bool locals that hold a containment test of it"""
+        return frozenset(d for d in defs if not (len(d) == 4 and d[1] == t))
+
     def _entry_expr(self, e, defs):
-        ids = {d[0] for d in defs}
+        ids = {d[0] for d in defs if len(d) == 3}
         for x in cxx2.walk(e):
             if x.get("k") == "DeclRefExpr" and (x.get("ref") or {}).get("id") in ids:
                 return True
@@ -1017,7 +1073,7 @@ class DelRule(paths.Rule):
                 found = (ta[0], k2, True) in facts
             elif key is not None and (ta[0], keytext(self.fn.node, key), True) in facts:
                 found = True
-            return (facts, defs, "found" if found else "blind")
+            return (facts, AddRule._stale(defs, ta[0]), "found" if found else "blind")
         return st
 
     def ret(self, st, node, ctx):
@@ -1151,6 +1207,50 @@ def check_delete(res, W, consts, doc):
 
 # ------------------------------------------------------------------------------------- read path
 
+def provider_of(e, res_id):
+    """e is (a cast of) `<resource parameter>->provider`."""
+    e = cxx2.skip(e)
+    if e is None or e.get("k") != "MemberExpr" or e.get("n") != "provider":
+        return False
+    b = cxx2.skip(cir.kids(e)[0]) if cir.kids(e) else None
+    return b is not None and b.get("k") == "DeclRefExpr" and (b.get("ref") or {}).get("id") == res_id
+
+
+def callback_of(W, fn_node, e, hops=0):
+    """The function a callback expression denotes: (parameters, body, node for the report line), "null" for a null
+    pointer, None when it cannot be told.  A lambda and a named function with the same body are the same callback."""
+    e = cxx2.skip(e)
+    while e is not None and e.get("k") == "UnaryOperator" and e.get("op") in ("&", "+", "*"):
+        e = cxx2.skip(cir.kids(e)[0])           # &Fn, +[]{..}, *Fn all decay to the function
+    if e is None:
+        return None
+    if e.get("k") in ("CXXNullPtrLiteralExpr", "GNUNullExpr") or cxx2.is_zero_literal(e):
+        return "null"
+    if e.get("k") == "CXXMemberCallExpr" and (cir.callee(e) or "").startswith("operator ") and not cxx2.real_args(e)[1:]:
+        r = cxx2.receiver(e)                    # closure-to-function-pointer conversion: <lambda>.operator int (*)(..)()
+        e = cxx2.skip(r[0]) if r and r[0] is not None else None
+        if e is None:
+            return None
+    lam = e if e.get("k") == "LambdaExpr" else None
+    if lam is not None:
+        b = cxx2.lambda_body(lam)
+        return (cxx2.lambda_params(lam), b, lam) if b is not None else None
+    if e.get("k") == "DeclRefExpr":
+        r = e.get("ref") or {}
+        if r.get("k") in ("FunctionDecl", "CXXMethodDecl"):
+            g = W.by_decl.get(r.get("id"))
+            if g is None and r.get("k") == "FunctionDecl":
+                g = W.free.get(r.get("n"))
+            if g is not None and cir.body(g.node) is not None:
+                return (g.params, cir.body(g.node), g.node)
+            return None
+        if r.get("k") == "VarDecl" and hops < 4:
+            vl = cxx2.value_locals(fn_node).get(r.get("id"))
+            if vl is not None:
+                return callback_of(W, fn_node, vl[1], hops + 1)
+    return None
+
+
 def check_read(res, W):
     res.rule("R-READBACK", "the buffer provider's read callback returns data()/size() of one member written only by the "
              "provider's constructors; VFS::Read and mju_readResource pass pointer and size through", floor=6)
@@ -1158,8 +1258,9 @@ def check_read(res, W):
     if len(prov) != 1:
         raise AnalysisError(f"expected exactly one resource-provider class in {TU}, found {len(prov)}")
     BP = prov[0]
-    # read callbacks: lambdas assigned to the `read` member of the provider
-    lambdas = []
+    # read callbacks: the functions stored in the `read` member of the provider: a lambda written in place, a named
+    # function / static member function of this file (`&Cls::Fn`, `Fn`), or a never-reassigned local holding one of these
+    callbacks = []
     for m in BP.methods.values():
         if m.node is None or (getattr(m, "template", None) is not None and re.search(r"\bArgs\b", m.type)):
             continue
@@ -1167,15 +1268,18 @@ def check_read(res, W):
             if x.get("k") in ("BinaryOperator", "CXXOperatorCallExpr") and (x.get("op") == "=" or cxx2.op_name(x) == "="):
                 c = cir.kids(x) if x.get("k") == "BinaryOperator" else cxx2.op_args(x)
                 tgt = cxx2.skip(c[0])
-                rhs = next((y for y in cxx2.walk(c[1], lambdas=False) if y.get("k") == "LambdaExpr"), None)
-                if tgt is not None and tgt.get("k") == "MemberExpr" and tgt.get("n") == "read" and rhs is not None:
-                    lambdas.append((m, rhs))
-    if not lambdas:
+                if tgt is None or tgt.get("k") != "MemberExpr" or tgt.get("n") != "read":
+                    continue
+                cb = callback_of(W, m.node, c[1])
+                if cb is None:
+                    raise AnalysisError(f"{m.qual}: cannot tell which function `{etext(tgt)} = {etext(c[1])}` stores as "
+                                        f"the read callback (expected a lambda or a function defined in {TU})")
+                if cb != "null":
+                    callbacks.append((m, cb))
+    if not callbacks:
         raise AnalysisError(f"{BP.name}: no read callback found")
     fields_used = set()
-    for m, lam in lambdas:
-        body = cxx2.lambda_body(lam)
-        ps = cxx2.lambda_params(lam)
+    for m, (ps, body, lam) in callbacks:
         construct = f"{m.qual}:read-callback"
         if len(ps) != 2:
             res.bad("R-READBACK", construct, TU, lam.get("line"), "read callback does not take (resource, out)")
@@ -1187,11 +1291,8 @@ def check_read(res, W):
         for x in cxx2.walk(body):
             if x.get("k") == "VarDecl":
                 init = [c for c in cir.kids(x) if c is not None]
-                e = cxx2.skip(init[-1]) if init else None
-                if e is not None and e.get("k") == "MemberExpr" and e.get("n") == "provider":
-                    b = cxx2.skip(cir.kids(e)[0])
-                    if b is not None and b.get("k") == "DeclRefExpr" and (b.get("ref") or {}).get("id") == res_id:
-                        selfs[x.get("id")] = x
+                if init and provider_of(init[-1], res_id):
+                    selfs[x.get("id")] = x
             if x.get("k") == "BinaryOperator" and x.get("op") == "=":
                 t = cxx2.skip(cir.kids(x)[0])
                 if t is not None and t.get("k") == "UnaryOperator" and t.get("op") == "*":
@@ -1212,7 +1313,10 @@ def check_read(res, W):
             if o is None or o.get("k") != "MemberExpr" or o.get("mid") not in BP.fields:
                 return None
             b = cxx2.skip(cir.kids(o)[0])
-            if b is not None and b.get("k") == "DeclRefExpr" and (b.get("ref") or {}).get("id") in selfs:
+            if b is not None and b.get("k") == "DeclRefExpr" and (b.get("ref") or {}).get("id") in selfs and \
+                    (b.get("ref") or {}).get("id") not in assigned_vars(body):
+                return o.get("mid")
+            if provider_of(b, res_id):       # `((Provider*)res->provider)->member` without the local
                 return o.get("mid")
             return None
         if len(outs) != 1 or len(rets) != 1:
@@ -1273,22 +1377,21 @@ def check_read(res, W):
             good = False
             detail = "no loop appending source bytes found"
             for lp in cxx2.walk(m.node):
-                if lp.get("k") != "ForStmt":
+                if lp.get("k") not in ("ForStmt", "WhileStmt"):
                     continue
-                c = list(cir.kids(lp)) + [None] * 5
-                init, _, cond, inc, body = c[:5]
-                iv = [x for x in cxx2.walk(init) if x.get("k") == "VarDecl"] if init else []
-                if len(iv) != 1:
+                # `for (i = 0; i < n; i++) S` and `i = 0; while (i < n) { S; i++; }` are the same counted loop
+                L = cxx2.index_loop(m.node, lp)
+                if L is None:
+                    if any(x.get("k") == "CXXMemberCallExpr" and (cxx2.receiver(x) or (None, None, None))[2] == "push_back"
+                           and cxx2.field_of(cxx2.receiver(x)[0]) == fid for x in cxx2.walk(lp)):
+                        raise AnalysisError(f"{m.qual}: the loop at line {lp.get('line')} appends to `{BP.fname(fid)}` but is "
+                                            f"not of a form read as a loop counting an index up by one")
                     continue
-                i_id = iv[0].get("id")
-                i0 = [y for y in cir.kids(iv[0]) if y is not None]
-                cs = cxx2.skip(cond)
-                starts0 = bool(i0) and cxx2.is_zero_literal(i0[-1])
-                bound_ok = cs is not None and cs.get("k") == "BinaryOperator" and cs.get("op") == "<" and \
-                    (cxx2.skip(cir.kids(cs)[0]).get("ref") or {}).get("id") == i_id and \
-                    (cxx2.skip(cir.kids(cs)[1]).get("ref") or {}).get("id") in {p.get("id") for p in cnt}
-                incs = cxx2.skip(inc)
-                inc_ok = incs is not None and incs.get("k") == "UnaryOperator" and incs.get("op") == "++"
+                i_id = L["var"]
+                starts0 = cxx2.is_zero_literal(L["start"])
+                bound_ok = (cxx2.skip(L["bound"]).get("ref") or {}).get("id") in {p.get("id") for p in cnt}
+                inc_ok = True
+                body = {"k": "CompoundStmt", "i": L["body"]}
                 pushes = [x for x in cxx2.walk(body) if x.get("k") == "CXXMemberCallExpr" and
                           (cxx2.receiver(x) or (None, None, None))[2] == "push_back" and
                           cxx2.field_of(cxx2.receiver(x)[0]) == fid]
@@ -1413,6 +1516,41 @@ _V, _VH, _UH, _RC = TU, "src/user/user_vfs.h", "src/user/user_util.h", RES_TU
 _TEST = "if (mounts_.contains(path.Str())) { return kRepeatedName; }"
 _MOUNT = "VFS::Mount(const mujoco::user::FilePath &, const mjpResourceProvider *)"
 _UNMOUNT = "VFS::Unmount(const mujoco::user::FilePath &)"
+# the shapes of /verif/refactors/D-p5 as small anchored edits (controls) and the same shapes with a defect (mutants)
+_READ_LAMBDA = ("    provider->read = [](mjResource* res, const void** out) {\n"
+                "      BufferProvider* self = (BufferProvider*)res->provider;\n\n"
+                "      *out = reinterpret_cast<void*>(self->contents_.data());\n"
+                "      return static_cast<int>(self->contents_.size());\n    };\n")
+_PRIVATE_AT = " private:\n  BufferProvider(const char* dir, const char* filename) {"
+_READ_FN = (" private:\n  static int ReadContents(mjResource* res, const void** out) {\n"
+            "    BufferProvider* self = (BufferProvider*)res->provider;\n\n"
+            "    *out = reinterpret_cast<void*>(self->contents_.data());\n"
+            "    return static_cast<int>(self->contents_.size())%s;\n  }\n\n"
+            "  BufferProvider(const char* dir, const char* filename) {")
+_NAMED_READ = [(_V, _READ_LAMBDA, "    provider->read = &BufferProvider::ReadContents;\n")]
+_STRIP_STEP = ("  std::string str = fullpath;\n  while (!str.empty()) {\n    auto it = mounts_.find(str);\n"
+               "    if (it != mounts_.end()) { return it->second.get(); }\n\n"
+               "    std::size_t n = str.find_last_of(\"/\\\\\");\n    if (n == std::string::npos) {\n      str = \"\";\n"
+               "    } else {\n      str = str.substr(0, n);\n    }\n  }\n")
+_STRIP_FOR = ("  for (std::string str = fullpath; !str.empty(); str = ParentPath(str)) {\n    auto it = mounts_.find(str);\n"
+              "    if (it != mounts_.end()) { return it->second.get(); }\n  }\n")
+_NS_END = "}  // namespace\n\nnamespace mujoco::user {"
+_PARENT_FN = ("std::string ParentPath(const std::string& path) {\n  std::size_t n = path.find_last_of(\"/\\\\\");\n"
+              "  if (n == std::string::npos) { return \"\"; }\n  return path.substr(0, n)%s;\n}\n\n" + _NS_END)
+_UNMOUNT_BODY = ("  if (auto it = mounts_.find(path.Str()); it != mounts_.end()) {\n"
+                 "    if (it->second->provider->unmount) { it->second->provider->unmount(it->second.get()); }\n"
+                 "    mounts_.erase(it);\n    return kSuccess;\n  }\n  return kInvalidResourceProvider;\n}")
+_UNMOUNT_EARLY = ("  auto it = mounts_.find(path.Str());\n  if (it == mounts_.end()) { return %s; }\n\n"
+                  "  mjResource* mount = it->second.get();\n  if (mount->provider->unmount) { mount->provider->unmount(mount); }\n"
+                  "  mounts_.erase(it);\n  return kSuccess;\n}")
+_DELFILE = ("  if (mj_unmountVFS(vfs, filename) != 0) {\n    mujoco::user::FilePath path(filename);\n"
+            "    return mj_unmountVFS(vfs, path.StripPath().Lower().c_str());\n  }\n  return mujoco::user::VFS::kSuccess;\n}")
+_DELFILE_EARLY = ("  if (mj_unmountVFS(vfs, filename) == 0) { return mujoco::user::VFS::kSuccess; }\n\n"
+                  "  mujoco::user::FilePath path(filename);\n%s}")
+_COPY_FOR = ("    for (size_t i = 0; i < n; i++) {\n      contents_.push_back(src_bytes[i]);\n      hash_ |= src_bytes[i];\n"
+             "      hash_ *= prime;\n    }\n")
+_COPY_WHILE = ("    size_t i = %s;\n    while (i < n) {\n      contents_.push_back(src_bytes[i]);\n      hash_ |= src_bytes[i];\n"
+               "      hash_ *= prime;\n      ++i;\n    }\n")
 SELFTEST = {
     "lookup-with-raw-key": ([(_V, "return mounts_.contains(key);", "return mounts_.contains(filename);")],
                             "R-KEYNORM construct=VFS::ContainsFile(const char *, const char *):mounts_.contains"),
@@ -1466,6 +1604,31 @@ SELFTEST = {
                                 (_VH, "  mjResource* FindMount(const std::string& fullpath);",
                                  "  mjResource* FindMount(const std::string& fullpath);\n  bool HasMount(const std::string& key);")],
                                None),
+    "control-read-named-function": (_NAMED_READ + [(_V, _PRIVATE_AT, _READ_FN % "")], None),
+    "named-read-returns-other-size": (_NAMED_READ + [(_V, _PRIVATE_AT, _READ_FN % " - 1")], "read-callback"),
+    "named-read-exposes-other-member": (_NAMED_READ + [(_V, _PRIVATE_AT, (_READ_FN % "").replace(
+        "reinterpret_cast<void*>(self->contents_.data())", "reinterpret_cast<void*>(&self->hash_)"))], "read-callback"),
+    "control-extract-parent-path": ([(_V, _STRIP_STEP, _STRIP_FOR), (_V, _NS_END, _PARENT_FN % "")], None),
+    "parent-path-helper-denormalises": ([(_V, _STRIP_STEP, _STRIP_FOR), (_V, _NS_END, _PARENT_FN % " + \"/\"")],
+                                        "R-KEYNORM construct=VFS::FindMount(const std::string &):mounts_.find#1"),
+    "control-early-return-unmount": ([(_V, _UNMOUNT_BODY, _UNMOUNT_EARLY % "kInvalidResourceProvider"),
+                                      (_V, _DELFILE, _DELFILE_EARLY % "  return mj_unmountVFS(vfs, path.StripPath().Lower().c_str());\n"),
+                                      (_V, "  if (resource && resource->provider && resource->provider->read) {\n"
+                                       "    return resource->provider->read(resource, buffer);\n  }\n  return kFailedToRead;",
+                                       "  if (!resource || !resource->provider || !resource->provider->read) { return kFailedToRead; }\n"
+                                       "  return resource->provider->read(resource, buffer);")], None),
+    "early-return-unmount-absent-reports-success": ([(_V, _UNMOUNT_BODY, _UNMOUNT_EARLY % "kSuccess")],
+                                                    f"R-DELRESULT construct={_UNMOUNT}:return kSuccess"),
+    "early-return-delete-ignores-result": ([(_V, _DELFILE, _DELFILE_EARLY % "  mj_unmountVFS(vfs, path.StripPath().Lower().c_str());\n"
+                                             "  return mujoco::user::VFS::kSuccess;\n")],
+                                           "R-DELRESULT construct=mj_deleteFileVFS:result-derived-from-unmount"),
+    "control-presence-in-bool-local": ([(_V, "    " + _TEST, "    const bool known = mounts_.contains(path.Str());\n"
+                                         "    if (known) { return kRepeatedName; }")], None),
+    "stale-presence-local": ([(_V, "    " + _TEST, "    const bool known = mounts_.contains(path.Str());\n"
+                               "    mounts_.erase(path.Str());\n    if (known) { return kRepeatedName; }")],
+                             f"R-ADDFIRST construct={_MOUNT}:return-repeated-name"),
+    "control-copy-loop-while": ([(_V, _COPY_FOR, _COPY_WHILE % "0")], None),
+    "copy-loop-while-skips-byte": ([(_V, _COPY_FOR, _COPY_WHILE % "1")], "copies-n-bytes"),
     "control-key-in-local": ([(_V, "    " + _TEST + "\n  }", "    " + _TEST + "\n  }\n  const std::string& key = path.Str();"),
                               (_V, "mounts_.emplace(path.Str(), std::move(res));", "mounts_.emplace(key, std::move(res));")], None),
 }
